@@ -755,7 +755,6 @@ Proof.
       apply (all3_mono (item_ok (sites st))).
       * intros l0 o s. apply item_ok_grow. exact Hok.
       * apply (Inv n t). exact Hin.
-    + intros n t Hin. apply (Inv n t). exact Hin.
 Qed.
 
 Theorem stored_terms_valid_from (cfg : config) :
@@ -995,4 +994,151 @@ Proof.
     destruct o; try discriminate K; reflexivity.
 Qed.
 
+
+(** ** the code as it stands: getSite with the inverted condition, for every state and label *)
+Theorem getSite_inverted (cfg : config) (st : state) (l : L) :
+  fix_getsite cfg = false ->
+  step cfg (GetSite l) st =
+  (st, match find_site l (sites st) with Some _ => Throws exWrongLabel | None => OOB end).
+Proof.
+  intros G. cbn [Lattice.step]. unfold Lattice.getSite. rewrite G.
+  destruct (find_site l (sites st)); reflexivity.
+Qed.
+
 End Proofs.
+
+(** * Witnesses: labels = nat, amplitudes = Q.
+      [_refuted]: the statement fails for the model of the code as it stands ([as_is]); each witness is a
+      history that the check replays on the real library.
+      [Example]: the hypotheses of the theorems above are satisfiable by non-trivial values. *)
+Local Open Scope Q_scope.
+
+Notation qstep := (step nat Nat.eqb Q q_ops).
+Notation qrun := (run nat Nat.eqb Q q_ops).
+Notation qinit := (init nat Q).
+Notation qvalid := (term_valid nat Nat.eqb Q).
+Notation qdefined := (preset_defined nat Nat.eqb Q).
+Notation qget := (getTerms nat Q).
+
+(** labels: A = 0, B = 1, C = 2.  A has 1 orbital and 2 spins, B has 1 orbital and 1 spin. *)
+Definition lA : nat := 0%nat.
+Definition lB : nat := 1%nat.
+Definition lC : nat := 2%nat.
+Definition hAB : list qop := [AddSite lA 1 2; AddSite lB 1 1].
+
+Theorem getSite_after_addSite_refuted :
+  exists (h : list qop) (l a b : nat),
+    last_added nat Nat.eqb Q l h None = Some (a, b) /\
+    snd (qstep as_is (GetSite l) (qrun as_is h qinit)) = Throws exWrongLabel.
+Proof. exists [AddSite lA 1 2], lA, 1%nat, 2%nat. split; vm_compute; reflexivity. Qed.
+
+Theorem getSite_unknown_fails_refuted :
+  exists (h : list qop) (l : nat),
+    not_readded nat Q l h /\ snd (qstep as_is (GetSite l) (qrun as_is h qinit)) = OOB.
+Proof.
+  exists [], lA. split; [|vm_compute; reflexivity]. intros k a b [].
+Qed.
+
+Theorem stored_terms_valid_refuted :
+  exists (h : list qop),
+    history_ok nat Nat.eqb Q q_ops as_is h qinit /\
+    exists n t, In t (qget (qrun as_is h qinit) n) /\ qvalid (sites (qrun as_is h qinit)) t = false.
+Proof.
+  exists (hAB ++ [Preset (PSzSz lA lB 1)]). split.
+  - cbn. repeat split.
+  - exists 4%nat. eexists. split; [vm_compute; right; left; reflexivity|vm_compute; reflexivity].
+Qed.
+
+Theorem presets_reject_undefined_refuted :
+  exists (st : qstate) (p : pcall nat Q),
+    qdefined (sites st) p = false /\ snd (qstep as_is (Preset p) st) = Done ONone.
+Proof.
+  exists (qrun as_is hAB qinit), (PSzSz lA lB 1). split; vm_compute; reflexivity.
+Qed.
+
+(** also when no out-of-range term results: site 2 = 1 orbital, 3 spins; addSS is documented for 2 spins *)
+Theorem presets_reject_undefined_refuted' :
+  exists (st : qstate) (p : pcall nat Q),
+    qdefined (sites st) p = false /\ snd (qstep as_is (Preset p) st) = Done ONone /\
+    Forall (fun t => qvalid (sites st) t = true) (q_effect as_is st (Preset p)).
+Proof.
+  exists (qrun as_is [AddSite lA 1 2; AddSite lC 1 3] qinit), (PSS lA lC 1).
+  split; [vm_compute; reflexivity|]. split; [vm_compute; reflexivity|].
+  vm_compute. repeat constructor.
+Qed.
+
+Theorem exception_leaves_lattice_unchanged_refuted :
+  exists (o : qop) (st st' : qstate) (c : nat),
+    qstep as_is o st = (st', Throws c) /\ maxorder st' <> maxorder st.
+Proof.
+  exists (Preset (PHopping4 lA lB 1)), (qrun as_is hAB qinit).
+  eexists. exists exWrongIndices. split; [vm_compute; reflexivity|]. vm_compute. discriminate.
+Qed.
+
+Theorem judge_flags_as_is :
+  exists (o : qop) (st : qstate),
+    q_judge (sites st) o (is_exn (snd (qstep as_is o st))) (q_effect as_is st o) <> [].
+Proof.
+  exists (Preset (PSzSz lA lB 1)), (qrun as_is hAB qinit). vm_compute. discriminate.
+Qed.
+
+(** Not a defect, but the reason for [history_ok]: addSite overwrites, so re-adding a label with a smaller
+    shape leaves terms behind that were valid when they were stored (holds in every variant). *)
+Theorem stored_terms_valid_needs_growing_sites :
+  exists (h : list qop) n t,
+    In t (qget (qrun repaired h qinit) n) /\ qvalid (sites (qrun repaired h qinit)) t = false.
+Proof.
+  exists [AddSite lA 1 2; Preset (PLevel lA 1); AddSite lA 1 1], 2%nat. eexists.
+  split; [vm_compute; right; left; reflexivity|vm_compute; reflexivity].
+Qed.
+
+(** ** hypotheses are satisfiable *)
+
+Definition tAB : qterm := mkTerm [true; false] [lA; lB] [0; 0]%nat [1; 0]%nat (1 # 2).    (* c+_{A,0,1} c_{B,0,0} *)
+Definition tBad : qterm := mkTerm [true; false] [lA; lB] [0; 0]%nat [1; 1]%nat (1 # 2).   (* spin 1 on B *)
+Definition tZero : qterm := mkTerm [true; false] [lA; lB] [0; 0]%nat [1; 0]%nat 0.
+
+Example ex_rejects_invalid :
+  term_wfb nat Q tBad = true /\ qvalid (sites (qrun repaired hAB qinit)) tBad = false /\
+  qstep as_is (AddTerm tBad) (qrun as_is hAB qinit) = (qrun as_is hAB qinit, Throws exWrongLabel).
+Proof. repeat split; vm_compute; reflexivity. Qed.
+
+Example ex_zero_ignored :
+  term_wfb nat Q tZero = true /\ vnz q_ops (t_val tZero) = false /\
+  qvalid (sites (qrun repaired hAB qinit)) tZero = true.
+Proof. repeat split; vm_compute; reflexivity. Qed.
+
+Example ex_accepts_valid :
+  term_wfb nat Q tAB = true /\ qvalid (sites (qrun repaired hAB qinit)) tAB = true /\ vnz q_ops (t_val tAB) = true /\
+  qget (qrun repaired (hAB ++ [AddTerm tAB]) qinit) 2 = [tAB].
+Proof. repeat split; vm_compute; reflexivity. Qed.
+
+(** a history that satisfies [history_ok], re-adds a site with a larger shape, uses raw terms, factory terms
+    and presets, and ends with a non-empty storage *)
+Definition hOK : list qop :=
+  [AddSite lA 1 2; AddSite lB 1 1; AddTerm tAB; AddTerm tBad; AddSite lB 2 2; AddTerm tBad;
+   Preset (PSS lA lA 1); Preset (PHopping4 lB lB 1); Preset (PCoulombP lB 1 (1#2) (1#4) 0);
+   AddFactoryTerm (FSpinflip6 lB 1 0 1 1 0); AddFactoryTerm (FSpinflip6 lB 1 0 0 1 0);
+   GetSite lB; Copy; Preset (PMagnetization lA 1)].
+
+Example ex_history_ok :
+  history_ok nat Nat.eqb Q q_ops repaired hOK qinit /\
+  length (qget (qrun repaired hOK qinit) 2) = 14%nat /\ length (qget (qrun repaired hOK qinit) 4) = 17%nat.
+Proof. split; [cbn; repeat split; cbn; lia|]. split; vm_compute; reflexivity. Qed.
+
+Example ex_not_readded :
+  not_readded nat Q lA [AddSite lB 1 1; AddTerm tAB] /\
+  last_added nat Nat.eqb Q lA ([AddSite lA 3 3] ++ AddSite lA 1 2 :: [AddSite lB 1 1; AddTerm tAB]) None = Some (1, 2)%nat.
+Proof.
+  split; [|reflexivity]. intros k a b [H|[H|[]]]; [|discriminate H]. injection H as <- _ _. discriminate.
+Qed.
+
+Example ex_preset_defined :
+  qdefined (sites (qrun repaired hAB qinit)) (PSzSz lA lA 1) = true /\
+  qdefined (sites (qrun repaired hAB qinit)) (PSzSz lA lB 1) = false /\
+  qdefined (sites (qrun repaired hAB qinit)) (PHopping6 lA lB 1 0 0) = false /\
+  qdefined (sites (qrun repaired hAB qinit)) (PHopping8 lA lB 1 0 0 1 0) = true.
+Proof. repeat split; vm_compute; reflexivity. Qed.
+
+Example ex_veqb_refl : forall v : Q, veqb q_ops v v = true.
+Proof. intros v. apply Qeq_bool_iff. reflexivity. Qed.
